@@ -181,6 +181,141 @@ def san_arm(prop, tier, seed, cov, violations, inconcl, notes, arms_used):
     cov['rule'] += ' | sanitizer arm: every entry point driven over the cross product of its boundary values plus random arguments in each instrumented build (calls counted per entry point; not added to distinct_nontrivial)'
 
 
+
+# ------------------------------------------------------------------------------------------------ concurrency arm (TSan)
+def tsan_builds(tier):
+    b = [('g++', 'gnu++17', '-O1')]
+    if tier == 'thorough':
+        b += [('clang++', 'c++20', '-O2')]
+    return b
+
+
+def tsan_name(tb):
+    return f"{'gcc' if tb[0] == 'g++' else 'clang'}-tsan{tb[2]}-{tb[1]}"
+
+
+def tsan_flags(tb):
+    return [f'-std={tb[1]}', tb[2], '-g', '-fno-omit-frame-pointer', '-w', '-fsanitize=thread', '-fPIE', f'-D{V.HOOK_DEFINE}=1', f'-I{V.LIB_INC}']
+
+
+def build_tsan(tb):
+    d = os.path.join(V.CACHE, 'obj', V.tree_hash())
+    os.makedirs(d, exist_ok=True)
+    srcs = [os.path.join(V.HARNESS, 'wrappers.cc'), V.LIB_SRC, os.path.join(V.HARNESS, 'tsan_main.cc'), os.path.join(V.HARNESS, 'monitor', 'gen.cc')]
+    hk = V.file_hash([srcs[0], srcs[2], srcs[3], os.path.join(V.HARNESS, 'monitor', 'core.h'), os.path.join(V.HARNESS, 'monitor', 'gen.h')])
+    key = V.sha(hk, V.compiler_version(tb[0]), ' '.join(tsan_flags(tb)))[:16]
+    exe = os.path.join(d, f'tsan-{tsan_name(tb)}-{key}')
+    if os.path.exists(exe):
+        return exe
+
+    def comp(i):
+        o = f'{exe}.{i}.o'
+        fl = tsan_flags(tb) if i < 2 else ['-std=c++17', '-O1', '-g', '-w', '-fsanitize=thread', '-fPIE']
+        r = V.run([tb[0]] + fl + [f'-DVERIF_CFG="{tsan_name(tb)}"', '-c', srcs[i], '-o', o])
+        if r.returncode != 0:
+            raise V.Inconclusive(f'thread-sanitizer build {tsan_name(tb)} failed: {srcs[i]}\n{r.stderr[-3000:]}')
+        return o
+    with ThreadPoolExecutor(4) as ex:
+        objs = list(ex.map(comp, range(4)))
+    r = V.run([tb[0], '-fsanitize=thread', '-pie'] + objs + ['-lpthread', '-o', exe + '.tmp'])
+    if r.returncode != 0:
+        raise V.Inconclusive(f'thread-sanitizer link {tsan_name(tb)} failed\n{r.stderr[-3000:]}')
+    os.replace(exe + '.tmp', exe)
+    for o in objs:
+        os.unlink(o)
+    return exe
+
+
+def parse_tsan_reports(err):
+    """report blocks of the ThreadSanitizer runtime -> list of {kind, entry, where}"""
+    out = []
+    for blk in err.split('=================='):
+        m = re.search(r'WARNING: ThreadSanitizer: ([^\n(]+)', blk)
+        if not m:
+            continue
+        kind = '-'.join(m.group(1).split())
+        em = re.search(r'\bw_(\w+)', blk)
+        loc = re.search(r"Location is global '([^']+)'", blk)
+        sm = re.search(r'SUMMARY: ThreadSanitizer: [^\n]*? in ([^\n]+)', blk)
+        where = f"global {loc.group(1)}" if loc else (sm.group(1).strip() if sm else '?')
+        where = re.sub(r'\(.*', '', where).strip()
+        out.append({'kind': kind, 'entry': em.group(1) if em else '?', 'where': where, 'text': blk.strip()[:1500]})
+    return out
+
+
+def tsan_arm(prop, tier, seed, cov, violations, inconcl, notes, arms_used):
+    arms_used.append('thread-sanitizer-driver')
+    builds = tsan_builds(tier)
+    with ThreadPoolExecutor(len(builds)) as ex:
+        exes = list(ex.map(build_tsan, builds))
+    sc = float(os.environ.get('VERIF_SCALE', '1'))
+    nshared = int((8000 if tier == 'quick' else 60000) * sc)
+    nprivate = nshared // 4
+    threads = 8
+    watchdog = int(os.environ.get('VERIF_WATCHDOG_S', '1800'))
+    classes = {}
+    tcov = {}
+    total = 0
+    for tb, exe in zip(builds, exes):
+        name = tsan_name(tb)
+        env = dict(os.environ, TSAN_OPTIONS='halt_on_error=0:report_signal_unsafe=0:exitcode=0:history_size=2')
+        try:
+            r = subprocess.run([exe, str(threads), str(seed), str(nshared), str(nprivate)], capture_output=True, text=True, env=env, timeout=watchdog)
+        except subprocess.TimeoutExpired:
+            inconcl.append(f'thread-sanitizer driver {name} hit the watchdog')
+            continue
+        summaries, differs, nodomain = {}, [], []
+        tot = None
+        for line in r.stdout.splitlines():
+            kv = dict(p.split('=', 1) for p in line.split()[1:] if '=' in p) if not line.startswith('CFG') else {}
+            if line.startswith('SUMMARY'):
+                summaries[kv['entry']] = kv
+            elif line.startswith('EV differs'):
+                differs.append(kv)
+            elif line.startswith('NODOMAIN'):
+                nodomain.append(kv['entry'])
+            elif line.startswith('TOTAL'):
+                tot = kv
+        reports = parse_tsan_reports(r.stderr)
+        if tot is None:
+            # the process died inside an entry point (signal) or the runtime refused to start: the last entry announced tells where
+            last = list(summaries)[-1] if summaries else None
+            if 'FATAL: ThreadSanitizer' in r.stderr and not summaries:
+                inconcl.append(f'thread-sanitizer runtime could not start for {name}: {r.stderr[-300:]}')
+                continue
+            key = f'tsan/process-died/exit={r.returncode}'
+            classes.setdefault(key, {'key': key, 'count': 1, 'per_cfg': {name: 1}, 'witnesses': [{'build': name, 'after_entry': last, 'stderr': r.stderr[-600:]}], 'arm': 'thread-sanitizer'})
+        if nodomain:
+            inconcl.append(f'{name}: wrapper entries without an argument domain: {nodomain}')
+        for ev in differs:
+            key = f"tsan/{ev['entry']}/result-depends-on-concurrent-calls"
+            c = classes.setdefault(key, {'key': key, 'count': 0, 'per_cfg': {}, 'witnesses': [], 'arm': 'thread-sanitizer'})
+            c['count'] += 1
+            c['per_cfg'][name] = c['per_cfg'].get(name, 0) + 1
+            if len(c['witnesses']) < 4:
+                c['witnesses'].append({'build': name, 'entry': ev['entry'], 'a': int(ev['a']), 'b': int(ev['b']), 'reference': int(ev['reference']), 'concurrent': int(ev['concurrent'])})
+        for rp in reports:
+            key = f"tsan/{rp['entry']}/{rp['kind']}@{rp['where']}"
+            c = classes.setdefault(key, {'key': key, 'count': 0, 'per_cfg': {}, 'witnesses': [], 'arm': 'thread-sanitizer'})
+            c['count'] += 1
+            c['per_cfg'][name] = c['per_cfg'].get(name, 0) + 1
+            if len(c['witnesses']) < 2:
+                c['witnesses'].append({'build': name, 'entry': rp['entry'], 'report': rp['text']})
+        calls = sum(int(s['calls']) for s in summaries.values())
+        total += calls
+        tcov[name] = {'flags': ' '.join(f for f in tsan_flags(tb) if f.startswith('-f') or f.startswith('-O') or f.startswith('-std')), 'threads': threads,
+                      'entry_points': len(summaries), 'calls': calls, 'calls_made_while_other_threads_were_in_the_same_entry_point': sum(int(s['concurrent_calls']) for s in summaries.values()),
+                      'results_compared_with_single_threaded_reference': sum(int(s['compared']) for s in summaries.values()),
+                      'results_that_differed': sum(int(s['differs']) for s in summaries.values()), 'race_reports': len(reports),
+                      'calls_per_entry_min': min((int(s['calls']) for s in summaries.values()), default=0)}
+        if not summaries:
+            inconcl.append(f'{name}: thread-sanitizer driver reported no entry point')
+    for c in classes.values():
+        violations.append(c)
+    cov['thread_sanitizer'] = tcov
+    cov['evaluations'] += total
+    cov['rule'] += ' | concurrency arm: every entry point called by 8 threads at the same time under ThreadSanitizer (shared and private arguments), results compared with a single-threaded reference'
+
 # ------------------------------------------------------------------------------------------------ consteval arm
 CE_MODES_QUICK = [('g++', 'c++17', True), ('clang++', 'c++20', False), ('g++', 'c++2b', False)]
 CE_MODES_THOROUGH = [(c, s, a) for c in ('g++', 'clang++') for (s, a) in (('c++17', True), ('c++17', False), ('c++20', False), ('c++2b', False))]
@@ -327,6 +462,8 @@ def consteval_arm(prop, tier, seed, cov, violations, inconcl, notes, arms_used, 
 def setup():
     for sb in san_builds('quick'):
         build_san(sb)
+    for tb in tsan_builds('quick'):
+        build_tsan(tb)
     build_fuzz()
 
 
@@ -342,6 +479,8 @@ def pre_monitor_env(prop, tier):
 def extra_arms(prop, tier, seed, cov, violations, inconcl, notes, arms_used, env=None):
     if prop == 'C07':
         san_arm(prop, tier, seed, cov, violations, inconcl, notes, arms_used)
+        if os.environ.get('VERIF_TSAN', '1') != '0':
+            tsan_arm(prop, tier, seed, cov, violations, inconcl, notes, arms_used)
     if prop == 'C08':
         pp = (env or {}).get('VERIF_POINTS')
         if pp and os.path.exists(pp):
@@ -368,6 +507,21 @@ def replay(prop, rec):
         hit = any(l.startswith('EV ') for l in r.stdout.splitlines())
         if hit:
             print(f"VIOLATION property={prop} replay=(sanitizer witness re-observed)")
+            return 1
+        return 0
+    if rec.get('arm') == 'thread-sanitizer':
+        tb = ([b for b in tsan_builds('thorough') if tsan_name(b) == w.get('build')] or tsan_builds('quick'))[0]
+        exe = build_tsan(tb)
+        env = dict(os.environ, TSAN_OPTIONS='halt_on_error=0:report_signal_unsafe=0:exitcode=0:history_size=2')
+        hit = False
+        for attempt in range(5):   # schedules differ from run to run
+            r = subprocess.run([exe, '8', str(rec.get('seed', 1) + attempt), '20000', '5000'] + ([w['entry']] if w.get('entry') else []), capture_output=True, text=True, env=env)
+            if parse_tsan_reports(r.stderr) or 'EV differs' in r.stdout or 'TOTAL' not in r.stdout:
+                print(r.stdout[-1500:], r.stderr[-2500:])
+                hit = True
+                break
+        if hit:
+            print(f"VIOLATION property={prop} replay=(thread-sanitizer witness re-observed)")
             return 1
         return 0
     print('replay of constant-evaluator witnesses: re-run the check; the points are regenerated from the seed')
